@@ -1,9 +1,114 @@
 (* Properties/C04.v — JSON and dictionary round trip (statements only).
-   Model: Model/DictCodec.v (serializers/dict.py, parsers/dict.py). *)
-From Coq Require Import NArith ZArith List Bool.
-From XV Require Import Base.Str Base.Eqb Model.Bind Model.EventGen Model.DictCodec.
-Import ListNotations.
+   Model: Model/DictCodec.v (serializers/dict.py DictEncoder, parsers/dict.py DictDecoder,
+   parsers/utils.py parse_var/parse_value, compat.py score_object); guards and clause
+   predicates: Model/DictCodecCorr.v; proofs: Proofs/DictCodecRoundtrip.v; witnesses
+   (exported from the implementation): Proofs/DictCodecWitness.v.
 
-Example C04_placeholder : dict_of [([97]%N, 1%N); ([98]%N, 2%N); ([97]%N, 3%N)] = [([97]%N, 3%N); ([98]%N, 2%N)].
-Proof. reflexivity. Qed.
-Print Assumptions C04_placeholder.
+   JSON text <-> dictionary is json.dump / json.load (trusted; every run checks
+   json.loads(JsonSerializer.render(o)) == DictEncoder.encode(o) and that JsonParser and
+   DictDecoder return the same object). *)
+From Coq Require Import NArith ZArith List Bool.
+From XV Require Import Base.Str Base.Eqb Model.Bind Model.EventGen Model.DictCodec Model.DictCodecCorr
+  Proofs.DictCodecRoundtrip Proofs.DictCodecWitness Proofs.DictCodecRefute.
+Import ListNotations.
+Open Scope N_scope.
+
+(* ---------------------------------------------------------------- the round trip, proved slice D1 *)
+(* d1_value g fac c u n o (Model/DictCodecCorr.v), n = 1 + depth of o: every reachable class has
+   Text / Element / Attribute fields of ONE primitive, enum or class type (a class without
+   subclasses), scalar / list / tokens / list-of-token-lists, no wrapper; field names and JSON
+   keys are distinct; the key set is not that of a generic AnyElement / DerivedElement
+   dictionary; a None sits only where the field default is None; every primitive leaf survives
+   the converter (c_deser (json text of p) = p — property C05's subject, here a computable
+   condition on the instance), tokens are non-empty and free of whitespace. *)
+
+Theorem C04_dict_roundtrip : forall g c u cl fs,
+  d1_value g FDict c u (S (vdepth (VObj cl fs))) (VObj cl fs) = true ->
+  exists j, encode g FDict false c u (VObj cl fs) = Ok j
+            /\ decode g c u cl false j = Ok (VObj cl fs).
+Proof. exact dict_roundtrip. Qed.
+Print Assumptions C04_dict_roundtrip.
+
+(* the None-filtering factory: None-valued keys are absent and decode to the field defaults;
+   inside the slice the default of such a field is None, so the instance itself comes back *)
+Theorem C04_dict_roundtrip_filter_none : forall g c u cl fs,
+  d1_value g FFilterNone c u (S (vdepth (VObj cl fs))) (VObj cl fs) = true ->
+  exists j, encode g FFilterNone false c u (VObj cl fs) = Ok j
+            /\ decode g c u cl false j = Ok (VObj cl fs).
+Proof. exact dict_roundtrip_filter_none. Qed.
+Print Assumptions C04_dict_roundtrip_filter_none.
+
+(* the encoded form is made of null / bool / int / float / str / list / dict-with-str-keys only:
+   that is the model's output type; on the implementation side the exporter refuses any other
+   leaf, and json.dumps(encode(o)) is run on every generated case *)
+Theorem C04_encode_json_native : forall g fac ign c u o j,
+  encode g fac ign c u o = Ok j -> json_native j = true.
+Proof. exact encode_json_native. Qed.
+Print Assumptions C04_encode_json_native.
+
+(* ---------------------------------------------------------------- non-vacuity of the guard *)
+Example C04_guard_inhabited :
+  in_proved_slice (w_inside_slice_u, w_inside_slice_k) = true
+  /\ in_proved_slice (w_inside_slice_filter_none_u, w_inside_slice_filter_none_k) = true
+  /\ theorem_instance (w_inside_slice_u, w_inside_slice_k) = true
+  /\ theorem_instance (w_inside_slice_filter_none_u, w_inside_slice_filter_none_k) = true.
+Proof. exact guard_inhabited. Qed.
+Print Assumptions C04_guard_inhabited.
+
+(* ---------------------------------------------------------------- refutations *)
+(* The full statement "for every typed instance, decode (encode o) = the promised object" is false
+   of the faithful model; each lemma exhibits a typed witness (exported from the implementation,
+   where it fails as well — replayed by every run of the check) that violates exactly one clause. *)
+
+(* 1. two fields share a JSON key *)
+Theorem C04_key_collision_refuted :
+  is_typed (w_json_key_collision_u, w_json_key_collision_k) = true
+  /\ clauses_failing (w_json_key_collision_u, w_json_key_collision_k) = [1]
+  /\ model_roundtrip (w_json_key_collision_u, w_json_key_collision_k) = false.
+Proof. exact key_collision_refuted. Qed.
+Print Assumptions C04_key_collision_refuted.
+
+(* 2. JSON null decodes to the field default *)
+Theorem C04_null_default_refuted :
+  is_typed (w_null_decodes_to_default_u, w_null_decodes_to_default_k) = true
+  /\ clauses_failing (w_null_decodes_to_default_u, w_null_decodes_to_default_k) = [2]
+  /\ model_roundtrip (w_null_decodes_to_default_u, w_null_decodes_to_default_k) = false.
+Proof. exact null_default_refuted. Qed.
+Print Assumptions C04_null_default_refuted.
+
+(* 3. no type marker: two candidate classes with the same best score, set order decides *)
+Theorem C04_best_match_tie_refuted :
+  is_typed (w_best_match_tie_u, w_best_match_tie_k) = true
+  /\ clauses_failing (w_best_match_tie_u, w_best_match_tie_k) = [3]
+  /\ decode_ambiguous (w_best_match_tie_u, w_best_match_tie_k) = true.
+Proof. exact best_match_tie_refuted. Qed.
+Print Assumptions C04_best_match_tie_refuted.
+
+(* 4. compound field: the JSON form of a value selects another choice (documented limitation) *)
+Theorem C04_compound_shadowed_refuted :
+  is_typed (w_compound_choice_shadowed_in_json_u, w_compound_choice_shadowed_in_json_k) = true
+  /\ clauses_failing (w_compound_choice_shadowed_in_json_u, w_compound_choice_shadowed_in_json_k) = [4]
+  /\ model_roundtrip (w_compound_choice_shadowed_in_json_u, w_compound_choice_shadowed_in_json_k) = false.
+Proof. exact compound_shadowed_refuted. Qed.
+Print Assumptions C04_compound_shadowed_refuted.
+
+(* 5. a class with a wrapper field can never be bound through bind_best_dataclass *)
+Theorem C04_wrapper_under_best_match_refuted :
+  is_typed (w_wrapper_under_best_match_u, w_wrapper_under_best_match_k) = true
+  /\ clauses_failing (w_wrapper_under_best_match_u, w_wrapper_under_best_match_k) = [3]
+  /\ has_wrapper_object w_wrapper_under_best_match_u (dc_value w_wrapper_under_best_match_k) = true
+  /\ gres_eqb value_eqb
+       (match model_encode w_wrapper_under_best_match_u w_wrapper_under_best_match_k with
+        | Ok j => model_decode w_wrapper_under_best_match_u w_wrapper_under_best_match_k j
+        | Err e => Err e
+        end) (Err EParser) = true.
+Proof. exact wrapper_under_best_match_refuted. Qed.
+Print Assumptions C04_wrapper_under_best_match_refuted.
+
+(* 7. the None-filtering factory strips keys of the generic AnyElement dictionary *)
+Theorem C04_generic_keys_filtered_refuted :
+  is_typed (w_generic_keys_filtered_u, w_generic_keys_filtered_k) = true
+  /\ clauses_failing (w_generic_keys_filtered_u, w_generic_keys_filtered_k) = [7]
+  /\ model_roundtrip (w_generic_keys_filtered_u, w_generic_keys_filtered_k) = false.
+Proof. exact generic_keys_filtered_refuted. Qed.
+Print Assumptions C04_generic_keys_filtered_refuted.
